@@ -61,9 +61,10 @@ class C03(fw.Property):
                   "when no matching ACK/RST arrives, no copy after a matching ACK/RST (RST fails the request), foreign ACK/RST inert, defaults and "
                   "derived spans equal to RFC 7252 (formulas translated from constants.py on every run), no internal KeyError/AssertionError; "
                   "round 2: no copy after a transport error (dispatch_error) for the remote, cancellation and separate responses are inert for the "
-                  "message layer (documented Examples), all for transports that do not refuse datagrams synchronously; for refusing transports "
-                  "(modelled faithfully, code after fixes 11456f9/8d04b7c) step-level theorems: a refused first transmission / retransmission puts "
-                  "nothing on the wire, ends the exchange and fails the remote's pending requests with NetworkError at that instant.")
+                  "message layer (documented Examples); round 3: all run-level theorems hold for transports that refuse datagrams synchronously "
+                  "(a refusal is dispatch_error in a state satisfying the invariants, code after fixes 11456f9/8d04b7c): a refused first "
+                  "transmission / retransmission puts nothing on the wire, ends the exchange, fails the remote's pending requests with "
+                  "NetworkError at that instant, and the message is never sent again in any continuation.")
     level_note = ("The model is hand-written and tied to the code by the differential run (full per-event trace and final exchange table, read from the "
                   "real objects). Timers are ideal (fire exactly when due). NON messages, observation, shutdown are outside the model's event "
                   "alphabet (C02/C10/C14/C18). Python computes delays in floats; "
@@ -82,8 +83,7 @@ class C03(fw.Property):
                     "harness/simloop.py ideal timer service, harness/simnet.py fake transport"]
     assumptions = ["timers fire exactly when due (virtual loop); real selector-loop jitter is not modelled",
                    "event alphabet of the model: CON requests, empty ACK/RST, 2.05 responses (piggy-backed / separate CON / NON), transport errors, "
-                   "request cancellation, synchronously refusing remotes; the run-level theorems assume a transport that does not refuse synchronously, "
-                   "for refusing transports there are step-level theorems (C03_refused_*_partial) and the correspondence run"]
+                   "request cancellation, synchronously refusing remotes (all run-level theorems include them)"]
 
     def setup(self):
         import logging
